@@ -21,16 +21,12 @@ def supported(case, m):
         t = p["type"]
         if k in ("small", "big"):
             s = st[t]
-            if idl.struct_has_objects(case, t) or any(f.get("count", 1) != 1 or f["type"] in st for f in s["fields"]):
+            if idl.struct_has_objects(case, t) or any(f.get("count", 1) != 1 for f in s["fields"]):
                 return False
         if k == "structarr":
             return False
-        if k == "primarr" and not (p["dir"] == "in" and t in ("uint8", "int8")):
-            return False
         if p["dir"] == "out" and k in ("prim", "small", "big"):
             out_users += 1
-    if any(idl.param_kind(case, p) == "big" and p["dir"] == "out" for p in m["params"]) and out_users > 1:
-        return False
     return True
 
 
@@ -60,6 +56,22 @@ def java_case(rng, cid):
                     fields.append({"type": "uint8", "count": 1, "name": f"{n['name'].lower()}p{total}"})
                     total += 1
                 n["fields"] = fields
+                n["_al"] = mx
+    # some structs get a struct-typed member (an earlier, already rebuilt struct of this file)
+    prim_by_size = {1: "uint8", 2: "int16", 4: "uint32", 8: "uint64"}
+    for f in c["files"]:
+        seen = []
+        for n in f["nodes"]:
+            if n["k"] == "struct":
+                if seen and rng.random() < 0.5:
+                    e = rng.choice(seen)
+                    n["fields"] = [{"type": e["name"], "count": 1, "name": n["name"].lower() + "in"},
+                                   {"type": prim_by_size[e["_al"]], "count": 1, "name": n["name"].lower() + "tail"}]
+                    n["_al"] = e["_al"]
+                seen.append(n)
+    for f in c["files"]:
+        for n in f["nodes"]:
+            n.pop("_al", None)
     for f in c["files"]:
         for n in f["nodes"]:
             if n["k"] == "interface":
@@ -77,6 +89,13 @@ def run(ctx, prop):
     hist = {"cases": 0, "calls": 0, "calls_ok": 0, "exceptions": 0, "kinds": {}}
     distinct = set()
     work = [("witness", w) for w in F.witness_cases(prop)]
+    # inputs of defects that were repaired in /repo: they must keep working
+    import glob
+    import json
+    for fpath in sorted(glob.glob(os.path.join(C.VERIF, "corpus", "regress", "k18_*.json"))):
+        rc_ = json.load(open(fpath))
+        rc_.pop("finding", None)
+        work.append(("gen", rc_))
     for i in range(n):
         work.append(("gen", java_case(ctx.rng, f"C18-{ctx.seed}-{i}")))
     for origin, case in work:
@@ -172,7 +191,7 @@ def run(ctx, prop):
     hist["kinds"] = dict(sorted(hist["kinds"].items()))
     return finish(ctx, prop, gate, oracle_fail, disagree, samples, len(distinct), hist, known=known_lines,
                   rule="generated methods over the constructs the Java backend supports (every primitive in/out alone and bundled, untyped buffers, "
-                       "byte arrays in, flat structs small and big, generic and typed objects, one object array per direction, inheritance, "
+                       "primitive arrays of every element type in both directions, flat and nested structs small and big, several out bundle users, generic and typed objects, one object array per direction, inheritance, "
                        "optional methods, errors) are driven through the generated Proxy and MinkObject classes (javac + java, minimal stand-in "
                        "for the Mink runtime API under bench/java-runtime) over a recording copying IMinkObject; partition lengths are compared "
                        "with the counts of the real C-family pipeline, bytes and objects with the Lean reference encoder, delivered and "
